@@ -244,7 +244,7 @@ func c19Extra(tier string, _ int64) *runner.ExtraResult {
 	// ---- involved-object filter
 	var evObjs []metav1.Object
 	for _, own := range []string{"a", "b"} {
-		for _, k := range []string{"Pod", "Service", "Node"} {
+		for _, k := range []string{"Pod", "Service", "Node", ""} { // "": an involved object without TypeMeta
 			for _, ns := range []string{"a", "b", ""} {
 				for _, nm := range []string{"x", "y", "z"} {
 					evObjs = append(evObjs, mkEvent(own, "e", nil, k, ns, nm))
@@ -254,7 +254,7 @@ func c19Extra(tier string, _ int64) *runner.ExtraResult {
 	}
 	evObjs = append(evObjs, mkPod("a", "x", nil, ""), mkSvc("a", "x", nil, nil), mkPod("b", "y", nil, ""))
 	n = 0
-	for _, k := range []string{"Pod", "Service"} {
+	for _, k := range []string{"Pod", "Service", ""} { // an empty kind is a kind like any other, not a wildcard
 		for _, ns := range []string{"a", "b"} {
 			for _, nm := range []string{"x", "y"} {
 				t := tInvolved(k, ns, nm)
